@@ -200,7 +200,7 @@ class C14(Prop):
     pid = "C14"
     prop_file = "Props/C14.v"
     module = "Props.C14"
-    gen_deps = ["Table", "Style", "Palette", "Svg", "ParserFn", "WinconFn"]
+    gen_deps = ["Table", "Style", "Palette", "Svg", "ParserFn", "WinconFn", "LossyFn", "SvgFn"]
     harness = ("h-render", "hrender")
     nontrivial_rule = ("cases: C07's in-grammar styled texts salted with XML specials and line ends; directed texts (XML-special characters and look-alike markup, "
                        "wide / zero-width / boundary characters, C0 controls that are executed but not printed, LF / CR LF / empty lines / CR separated from LF by a "
